@@ -96,8 +96,11 @@ class Check:
         vac = []
         for rid, r in self.rules.items():
             c = per_rule.get(rid, {"ok": 0, "violation": 0, "undecided": 0, "info": 0})
-            if c["ok"] + c["violation"] < r["min_decided"]:
-                vac.append("rule %s decided %d instances, fewer than the %d confirmed on the pinned tree (anchor vanished or idiom no longer recognised)" % (rid, c["ok"] + c["violation"], r["min_decided"]))
+            # small counts are exact; for rules with many instances a behaviour-preserving edit
+            # (a loop vectorised, two statements merged) may legitimately remove a few of them
+            need = r["min_decided"] if r["min_decided"] <= 5 else -(-r["min_decided"] * 4 // 5)
+            if c["ok"] + c["violation"] < need:
+                vac.append("rule %s decided %d instances, fewer than the %d required (%d confirmed on the pinned tree; anchor vanished or idiom no longer recognised)" % (rid, c["ok"] + c["violation"], need, r["min_decided"]))
         lines = []
         for i in kn_viol:
             k = known_open[(i.rule, i.key)]
